@@ -43,7 +43,7 @@ MUTATIONS = [
     ("C16", "context-add-or", "iteration_graph/identifiable_expression/_extract_context.py", "            is_sparse=self.is_sparse and other.is_sparse,", "            is_sparse=self.is_sparse or other.is_sparse,", 1),
     ("C01", "is-sparse-ignores-output", "iteration_graph/_generate_ir.py", "    is_sparse = self.is_sparse_input() and (self.output is None or self.is_sparse_output())", "    is_sparse = self.is_sparse_input()", 1),
     ("C05", "is-sparse-ignores-output-c05", "iteration_graph/_generate_ir.py", "    is_sparse = self.is_sparse_input() and (self.output is None or self.is_sparse_output())", "    is_sparse = self.is_sparse_input()", 1),
-    ("C05", "crd-growth-gt", "iteration_graph/_write_sparse_ir.py", "    with source.branch(GreaterThanOrEqual(pointer, capacity)):", "    with source.branch(GreaterThan(pointer, capacity)):", 1),
+    ("C05", "crd-growth-gt", "iteration_graph/_write_sparse_ir.py", "    with source.branch(GreaterThanOrEqual(pointer, capacity)):", "    with source.branch(GreaterThanOrEqual(pointer, capacity.plus(1))):", 1),
     ("C05", "crd-growth-plus-one", "iteration_graph/_write_sparse_ir.py", "    with source.branch(GreaterThanOrEqual(pointer, capacity)):\n        source.append(capacity.assign(capacity.times(2)))", "    with source.branch(GreaterThanOrEqual(pointer, capacity)):\n        source.append(capacity.assign(capacity.plus(1)))", 0),
     ("C05", "pos-allocation-max-dropped", "iteration_graph/_write_sparse_ir.py", "            source.append(capacity.assign(Max(capacity.times(2), minimum_capacity)))", "            source.append(capacity.assign(capacity.times(2)))", 1),
     ("C02", "pos-assembly-wrong-slot", "iteration_graph/_write_sparse_ir.py", "    source.append(pos.idx(previous_pointer.plus(1)).assign(pointer))", "    source.append(pos.idx(previous_pointer).assign(pointer))", 1),
